@@ -299,6 +299,12 @@ theorem defaultTree_extends (h : Heap) (p : Path) (v : Ref) : Extends h (default
       split
       · rename_i h1 c he; rw [he] at this; exact this.trans (extends_push _ _)
       · rename_i h1 e he; rw [he] at this; exact this
+    | obj id =>
+      rw [defaultTree.eq_5 _ _ _ _ (by simp) (by simp) (by simp)]
+      have := ih h
+      split
+      · rename_i h1 c he; rw [he] at this; exact this.trans (extends_push _ _)
+      · rename_i h1 e he; rw [he] at this; exact this
 
 /-! ## copying `_set_by_path` only allocates (and writes cells it allocated itself) -/
 
